@@ -120,16 +120,46 @@ def run_book(case):
     tick, trading, t0, ops = case["tick"], case["trading"], case["t0"], case["ops"]
     orc = common.Oracle()
     try:
-        return _run_book(orc, tick, trading, t0, ops, case.get("quiet", 0))
+        return _run_book(orc, tick, trading, t0, ops, case.get("quiet", 0), case.get("big", 0))
     finally:
         orc.close()
 
 
-def _run_book(orc, tick, trading, t0, ops, quiet_mask=0):
+def _run_book(orc, tick, trading, t0, ops, quiet_mask=0, big_mask=0):
     b = common.Guarded(bourse.core.OrderBook(t0, tick, trading), "C18", "OrderBook")
     orc.call("book_new", start=t0, tick=tick, trading=trading)
     now = t0
     feat = {"trades": 0, "cancel_or_modify": 0, "asym": 0, "errors": 0, "roundtrips": 0, "calls": 0}
+    state = {"trading": trading}
+    BIG = [2**30, 2**31, 2**31 + 5, 3 * 2**30, 2**30 + 5, MAXU32]
+
+    def admissible(before, bid, price, vol, own=None):
+        # largest volume <= vol that keeps the valid-history domain: resting volume of the side and the cumulative
+        # traded volume stay below 2^32 at every moment. Whatever trades on arrival does not rest, so a side may be
+        # nearly full while a large crossing order arrives.
+        act = [o for o in before["orders"] if o[1] == 1 and o[8] != own]
+        side_vol = sum(o[4] for o in act if o[0] == bid)
+        tradable = 0
+        if state["trading"] and (price is None or price % tick == 0):
+            tradable = sum(o[4] for o in act if o[0] != bid and (price is None or (o[6] <= price if bid else o[6] >= price)))
+        cap_trade = MAXU32 - sum(t[3] for t in before["trades"])
+        if tradable > cap_trade:
+            limit = cap_trade
+        elif price is None:
+            limit = MAXU32
+        else:
+            limit = (MAXU32 - side_vol) + tradable
+        return max(0, min(vol, limit, MAXU32))
+
+    def trade_fits(before, tgt, price, vol):
+        # a modification re-enters the order: what it would trade must fit the traded-volume counter
+        act = [o for o in before["orders"] if o[1] == 1 and o[8] != tgt[8]]
+        if not state["trading"] or tgt[1] != 1:
+            return True
+        p_ = price if price is not None else tgt[6]
+        tradable = sum(o[4] for o in act if o[0] != tgt[0] and (o[6] <= p_ if tgt[0] else o[6] >= p_))
+        v_ = vol if vol is not None else tgt[4]
+        return min(v_, tradable) <= MAXU32 - sum(t[3] for t in before["trades"])
 
     def compare(step, op):
         ps = py_book_snapshot(b)
@@ -163,18 +193,25 @@ def _run_book(orc, tick, trading, t0, ops, quiet_mask=0):
         elif kind == "enable":
             b.enable_trading()
             orc.call("book_enable")
+            state["trading"] = True
         elif kind == "disable":
             b.disable_trading()
             orc.call("book_disable")
+            state["trading"] = False
         elif kind == "place":
             _, bid, vol, trader, price = op
+            if (big_mask >> (step % 64)) & 1:
+                vol = BIG[(vol + step) % len(BIG)]
+                feat["big"] = feat.get("big", 0) + 1
+            vol = admissible(before, bid, price, vol)
             # documented usage: advance the clock between placements
             now += 1
             b.set_time(now)
             orc.call("book_set_time", t=now)
             r = orc.call("book_place", bid=bid, vol=vol, trader=trader, price=price)
             try:
-                pid = b.place_order(bid, vol, trader, price=price) if price is not None else b.place_order(bid, vol, trader)
+                with b.expecting(ValueError):
+                    pid = b.place_order(bid, vol, trader, price=price) if price is not None else b.place_order(bid, vol, trader)
                 if not r["ok"]:
                     raise Violation("C18 Python accepted an order the Rust core rejects", "step %d %r -> %r, core: %r" % (step, op, pid, r))
                 if pid != r["id"]:
@@ -191,7 +228,8 @@ def _run_book(orc, tick, trading, t0, ops, quiet_mask=0):
             args = {"bid": True, "vol": 5, "trader": 1, "price": tick * 10}
             args[field] = value
             try:
-                b.place_order(args["bid"], args["vol"], args["trader"], price=args["price"])
+                with b.expecting(OverflowError):
+                    b.place_order(args["bid"], args["vol"], args["trader"], price=args["price"])
                 raise Violation("C18 out-of-range integer accepted", "step %d %r" % (step, op))
             except OverflowError:
                 feat["errors"] += 1
@@ -200,7 +238,8 @@ def _run_book(orc, tick, trading, t0, ops, quiet_mask=0):
                 raise Violation("C18 failed call changed the object", "step %d %r: %s" % (step, op, first_diff(after, before)))
         elif kind == "time_bad":
             try:
-                b.set_time(op[1])
+                with b.expecting(OverflowError):
+                    b.set_time(op[1])
                 raise Violation("C18 out-of-range integer accepted", "step %d %r" % (step, op))
             except OverflowError:
                 feat["errors"] += 1
@@ -218,6 +257,11 @@ def _run_book(orc, tick, trading, t0, ops, quiet_mask=0):
                 continue
             _, ix, price, vol = op
             oid = resolve(n, ix)
+            tgt = before["orders"][oid]
+            if vol is not None and tgt[1] == 1:
+                vol = admissible(before, tgt[0], price if price is not None else tgt[6], vol, own=oid)
+            if not trade_fits(before, tgt, price, vol):
+                continue
             now += 1
             b.set_time(now)
             orc.call("book_set_time", t=now)
@@ -241,6 +285,8 @@ def _run_book(orc, tick, trading, t0, ops, quiet_mask=0):
             oid = o[8]
             price = o[6] if mode in (0, 2) else None
             vol = o[4] if mode in (1, 2) else None
+            if not trade_fits(before, o, price, vol):
+                continue
             now += 1
             b.set_time(now)
             orc.call("book_set_time", t=now)
@@ -274,7 +320,7 @@ def _run_book(orc, tick, trading, t0, ops, quiet_mask=0):
         if not quiet:
             compare(step, op)
     nontrivial = feat["trades"] >= 1 and feat["cancel_or_modify"] >= 1 and feat["asym"] >= 1
-    return nontrivial, {"book_sequences": 1, "book_calls": feat["calls"], "book_trades": feat["trades"], "book_error_paths": feat["errors"], "book_snapshot_roundtrips": feat["roundtrips"], "book_asymmetric_states": feat["asym"], "book_modifies_restating_current_values": feat.get("restating_modifies", 0), "book_calls_not_observed": feat.get("quiet", 0)}
+    return nontrivial, {"book_sequences": 1, "book_calls": feat["calls"], "book_trades": feat["trades"], "book_error_paths": feat["errors"], "book_snapshot_roundtrips": feat["roundtrips"], "book_asymmetric_states": feat["asym"], "book_modifies_restating_current_values": feat.get("restating_modifies", 0), "book_calls_not_observed": feat.get("quiet", 0), "book_orders_with_volume_2^30_or_more": feat.get("big", 0)}
 
 
 def price_st(tick):
@@ -311,7 +357,7 @@ def book_case_st():
         seed_orders = st.lists(st.tuples(st.just("place"), st.booleans(), st.integers(1, 12), st.integers(0, 9), st.one_of(good_price, tight_price)), min_size=3, max_size=8)
         return st.tuples(seed_orders, st.lists(op, min_size=4, max_size=32)).map(lambda t: t[0] + t[1])
 
-    return st.integers(1, 10).flatmap(lambda tick: st.fixed_dictionaries({"tick": st.just(tick), "trading": st.sampled_from([True, True, True, False]), "t0": st.integers(0, 1000), "ops": ops_for(tick), "quiet": st.one_of(st.just(0), st.integers(0, 2**64 - 1), st.just(2**64 - 1))}))
+    return st.integers(1, 10).flatmap(lambda tick: st.fixed_dictionaries({"tick": st.just(tick), "trading": st.sampled_from([True, True, True, False]), "t0": st.integers(0, 1000), "ops": ops_for(tick), "quiet": st.one_of(st.just(0), st.integers(0, 2**64 - 1), st.just(2**64 - 1)), "big": st.one_of(st.just(0), st.just(0), st.just(0), st.integers(0, 2**64 - 1))}))
 
 
 # ---------------------------------------------------------------------------------------------
@@ -363,12 +409,13 @@ def _run_env(orc, case):
             _, bid, vol, trader, price = op
             r = orc.call("env_place", bid=bid, vol=vol, trader=trader, price=price)
             try:
-                if price is not None:
-                    pid = e.place_order(bid, vol, trader, price=price)
-                    e2.place_order(bid, vol, trader, price=price)
-                else:
-                    pid = e.place_order(bid, vol, trader)
-                    e2.place_order(bid, vol, trader)
+                with e.expecting(ValueError), e2.expecting(ValueError):
+                    if price is not None:
+                        pid = e.place_order(bid, vol, trader, price=price)
+                        e2.place_order(bid, vol, trader, price=price)
+                    else:
+                        pid = e.place_order(bid, vol, trader)
+                        e2.place_order(bid, vol, trader)
                 if not r["ok"]:
                     raise Violation("C18 Python accepted an order the Rust core rejects", "step %d %r -> %r" % (step, op, pid))
                 if pid != r["id"]:
@@ -378,7 +425,8 @@ def _run_env(orc, case):
                 if r["ok"]:
                     raise Violation("C18 Python raised ValueError for an order the Rust core accepts", "step %d %r: %s" % (step, op, ex))
                 try:
-                    e2.place_order(bid, vol, trader, price=price)
+                    with e2.expecting(ValueError):
+                        e2.place_order(bid, vol, trader, price=price)
                 except ValueError:
                     pass
                 if not quiet and py_env_snapshot(e) != before:
@@ -388,7 +436,8 @@ def _run_env(orc, case):
             args = {"bid": True, "vol": 5, "trader": 1, "price": tick * 10}
             args[field] = value
             try:
-                e.place_order(args["bid"], args["vol"], args["trader"], price=args["price"])
+                with e.expecting(OverflowError):
+                    e.place_order(args["bid"], args["vol"], args["trader"], price=args["price"])
                 raise Violation("C18 out-of-range integer accepted", "step %d %r" % (step, op))
             except OverflowError:
                 feat["errors"] += 1
